@@ -75,6 +75,45 @@ def file_variants(loader_fn, data, conv_obj, fails, where, loader, ctx):
             ctx.count("file_loads")
 
 
+def check_paths(ctx=None):
+    """Dispatch object vs. path: a str that is a (relative) file name is a path, whatever it looks like."""
+    fails = []
+    data = {"a": "x", "b": "y"}
+    want = Converter.from_prefix_map(data)
+    d = tmpdir()
+    old = os.getcwd()
+    names = ["[draft] prefixes.json", "{braces}.json", "{}", "[]", "http.json", "ftp", "https", " leading space.json", "é ü.json", "a:b.json", "nested/inner.json"]
+    try:
+        os.chdir(d)
+        os.makedirs("nested", exist_ok=True)
+        for name in names:
+            with open(name, "w", encoding="utf-8") as f:
+                json.dump(data, f)
+            for kind, arg in (("relative str", name), ("absolute str", os.path.join(d, name)), ("Path", Path(name))):
+                try:
+                    c = curies.load_prefix_map(arg)
+                except Exception as e:  # noqa
+                    fails.append((f"file-load-raises/{kind}", f"load_prefix_map({arg!r}) ({kind}, file exists): {type(e).__name__}: {str(e)[:80]}"))
+                    continue
+                if not same_converter(c, want):
+                    fails.append((f"file-load-differs-from-object/{kind}", f"load_prefix_map({arg!r}) has {len(c.records)} records"))
+                if ctx is not None:
+                    ctx.count("file_loads")
+                    ctx.count("unusual_paths")
+        epm = [{"prefix": "a", "uri_prefix": "x", "prefix_synonyms": ["s"]}]
+        with open("[e].json", "w") as f:
+            json.dump(epm, f)
+        if not same_converter(curies.load_extended_prefix_map("[e].json"), curies.load_extended_prefix_map(epm)):
+            fails.append(("file-load-differs-from-object/relative str", "load_extended_prefix_map('[e].json')"))
+        with open("{j}.json", "w") as f:
+            json.dump({"@context": data}, f)
+        if not same_converter(curies.load_jsonld_context("{j}.json"), want):
+            fails.append(("file-load-differs-from-object/relative str", "load_jsonld_context('{j}.json')"))
+    finally:
+        os.chdir(old)
+    return fails
+
+
 # ---- the loaders --------------------------------------------------------------------------------------------------
 def check_prefix_map(items, ctx=None):
     fails = []
@@ -220,7 +259,7 @@ def check_reverse(items, ctx=None):
     return fails
 
 
-JSONLD_KEYS = {"a": "x", "b": "y", "@vocab": "v", "@base": "w", "": "e", "@x": "q"}
+JSONLD_KEYS = {"a": "x", "b": "y", "@vocab": "v", "@base": "w", "": "e", "@x": "q", "c": ""}   # "c" is mapped to the empty IRI
 
 
 def jsonld_values(uri):
@@ -325,6 +364,7 @@ def units(tier, seed):
     us.extend({"kind": "priority", "part": i, "of": 32, "tier": tier} for i in range(32))
     us.extend({"kind": "jsonld", "part": i, "of": 32, "tier": tier} for i in range(32))
     us.append({"kind": "rdflib"})
+    us.append({"kind": "paths"})
     return us
 
 
@@ -367,6 +407,10 @@ CHECKS = {"prefix_map": check_prefix_map, "upgrade": check_upgrade, "priority": 
 
 
 def run_unit(unit, ctx):
+    if unit["kind"] == "paths":
+        for sig, msg in check_paths(ctx)[:3]:
+            ctx.violation("C13/" + sig, msg, {"kind": "paths", "data": []})
+        return
     for i, (kind, data) in enumerate(cases(unit)):
         if "of" in unit and i % unit["of"] != unit["part"]:
             continue
@@ -385,6 +429,8 @@ def run_unit(unit, ctx):
 
 
 def replay(case):
+    if case["kind"] == "paths":
+        return [("C13/" + s, m) for s, m in check_paths(None)]
     data = [tuple(tuple(y) if isinstance(y, list) and case["kind"] == "priority" else y for y in x) for x in case["data"]]
     return [("C13/" + s, m) for s, m in CHECKS[case["kind"]](data, None)]
 
@@ -404,4 +450,4 @@ def describe(tier):
 
 
 def required_counters(tier):
-    return ["validated", "file_loads", "upgrade_non_injective", "reverse_groups_with_synonyms", "jsonld_with_ignored_terms", "rdflib_loads", "rdflib_default_namespace"] + ["cases_" + k for k in CHECKS]
+    return ["validated", "file_loads", "upgrade_non_injective", "reverse_groups_with_synonyms", "jsonld_with_ignored_terms", "rdflib_loads", "rdflib_default_namespace", "unusual_paths"] + ["cases_" + k for k in CHECKS]
